@@ -53,6 +53,9 @@ func runC01(c *fw.Ctx) {
 			c.Eval(1)
 			var err error
 			w, err = openWorld("")
+			if w != nil {
+				w.solo = true
+			}
 			if err != nil {
 				c.Inconclusive("open engine: " + err.Error())
 				return
